@@ -31,6 +31,7 @@ import Bmc.Proofs.GenDec.SessionSelector
 import Bmc.Proofs.GenDec.Message
 import Bmc.Proofs.GenDec.GetDCMICapabilitiesInfoEnhancedSystemPowerStatisticsAttrsRsp
 import Bmc.Proofs.GenDec.GetDCMISensorInfoRsp
+import Bmc.Proofs.ApiWrappers
 #print axioms Bmc.Proofs.C17.deviceID_reuse
 #print axioms Bmc.Proofs.C17.chassis_reuse
 #print axioms Bmc.Proofs.C17.message_reuse
@@ -88,3 +89,6 @@ import Bmc.Proofs.GenDec.GetDCMISensorInfoRsp
 #print axioms Bmc.Proofs.GenDec.Message_gen_eq
 #print axioms Bmc.Proofs.GenDec.GetDCMICapabilitiesInfoEnhancedSystemPowerStatisticsAttrsRsp_gen_eq
 #print axioms Bmc.Proofs.GenDec.GetDCMISensorInfoRsp_gen_eq
+#print axioms Bmc.Proofs.ApiWrappers.api_wrappers
+#print axioms Bmc.Proofs.ApiWrappers.api_other_senders
+#print axioms Bmc.Proofs.ApiWrappers.api_cmd_constructors
